@@ -8,10 +8,17 @@ package verifkit
 
 import (
 	"bytes"
+	"crypto/ecdsa"
+	"crypto/elliptic"
+	"crypto/rand"
 	"crypto/sha256"
 	"crypto/x509"
+	"crypto/x509/pkix"
 	stdasn1 "encoding/asn1"
 	"errors"
+	"math/big"
+	"sync"
+	"time"
 )
 
 var (
@@ -129,17 +136,151 @@ func IndependentEntry(chain [][]byte, precert bool, strip stdasn1.ObjectIdentifi
 	if err != nil {
 		return 0, nil, nil, nil, false
 	}
-	for _, eku := range issuer.UnknownExtKeyUsage {
-		if eku.Equal(oidCTEKU) {
-			return 0, nil, nil, nil, false
-		}
-	}
 	stripped, err := StripExtension(leaf.RawTBSCertificate, strip)
 	if err != nil {
 		return 0, nil, nil, nil, false
 	}
+	for _, eku := range issuer.UnknownExtKeyUsage {
+		if eku.Equal(oidCTEKU) {
+			// RFC 6962 §3.2: issued by a Precertificate Signing Certificate — the entry names the FINAL issuer: its key hash,
+			// its name as the TBSCertificate's issuer, its key identifier as the authority key identifier
+			if len(chain) < 3 {
+				return 0, nil, nil, nil, false
+			}
+			final, err := x509.ParseCertificate(chain[2])
+			if err != nil {
+				return 0, nil, nil, nil, false
+			}
+			rewritten, err := reissueUnder(stripped, issuer)
+			if err != nil {
+				return 0, nil, nil, nil, false
+			}
+			h := sha256.Sum256(final.RawSubjectPublicKeyInfo)
+			return 1, nil, h[:], rewritten, true
+		}
+	}
 	h := sha256.Sum256(issuer.RawSubjectPublicKeyInfo)
 	return 1, nil, h[:], stripped, true
+}
+
+var oidAKI = stdasn1.ObjectIdentifier{2, 5, 29, 35}
+
+// reissueUnder rewrites a TBSCertificate issued by the Precertificate Signing Certificate `pre` as if the final CA had issued
+// it: issuer := pre's issuer, authority key identifier := pre's authority key identifier.  Only the case in which both carry
+// an authority key identifier is implemented (error otherwise).
+func reissueUnder(tbs []byte, pre *x509.Certificate) ([]byte, error) {
+	var preAKI []byte
+	for _, e := range pre.Extensions {
+		if e.Id.Equal(oidAKI) {
+			preAKI = e.Value
+		}
+	}
+	if preAKI == nil {
+		return nil, errors.New("verifkit: pre-issuer without authority key identifier")
+	}
+	var outer stdasn1.RawValue
+	if rest, err := stdasn1.Unmarshal(tbs, &outer); err != nil || len(rest) != 0 {
+		return nil, errors.New("verifkit: TBSCertificate is not one SEQUENCE")
+	}
+	fields, err := elements(outer.Bytes)
+	if err != nil {
+		return nil, err
+	}
+	var body bytes.Buffer
+	seqNo, replaced := 0, false
+	for _, f := range fields {
+		if f.Class == stdasn1.ClassUniversal && f.Tag == stdasn1.TagSequence {
+			seqNo++
+			if seqNo == 2 { // signature algorithm is the first SEQUENCE, the issuer Name the second
+				body.Write(pre.RawIssuer)
+				continue
+			}
+		}
+		if !(f.Class == stdasn1.ClassContextSpecific && f.Tag == 3) {
+			body.Write(f.FullBytes)
+			continue
+		}
+		var list stdasn1.RawValue
+		if rest, err := stdasn1.Unmarshal(f.Bytes, &list); err != nil || len(rest) != 0 {
+			return nil, errors.New("verifkit: malformed extensions")
+		}
+		exts, err := elements(list.Bytes)
+		if err != nil {
+			return nil, err
+		}
+		var kept bytes.Buffer
+		for _, e := range exts {
+			parts, err := elements(e.Bytes)
+			if err != nil || len(parts) < 2 {
+				return nil, errors.New("verifkit: malformed extension")
+			}
+			var id stdasn1.ObjectIdentifier
+			if _, err := stdasn1.Unmarshal(parts[0].FullBytes, &id); err != nil {
+				return nil, err
+			}
+			if id.Equal(oidAKI) {
+				var eb bytes.Buffer
+				for _, p := range parts[:len(parts)-1] {
+					eb.Write(p.FullBytes)
+				}
+				eb.Write(derWrap(0x04, preAKI))
+				kept.Write(derWrap(0x30, eb.Bytes()))
+				replaced = true
+				continue
+			}
+			kept.Write(e.FullBytes)
+		}
+		body.Write(derWrap(0xa3, derWrap(0x30, kept.Bytes())))
+	}
+	if !replaced {
+		return nil, errors.New("verifkit: precertificate without authority key identifier")
+	}
+	return derWrap(0x30, body.Bytes()), nil
+}
+
+var (
+	preChainOnce sync.Once
+	preChainDER  [][]byte
+)
+
+// PreIssuerChain returns (generated once per run) the DER of [precertificate, Precertificate Signing Certificate (CT EKU), CA]:
+// the precertificate carries the critical poison extension and is signed by the signing certificate, which the CA issued.
+func PreIssuerChain() [][]byte {
+	preChainOnce.Do(func() {
+		mk := func() *ecdsa.PrivateKey {
+			k, err := ecdsa.GenerateKey(elliptic.P256(), rand.Reader)
+			if err != nil {
+				panic(err)
+			}
+			return k
+		}
+		caKey, preKey, leafKey := mk(), mk(), mk()
+		nb, na := time.Date(2020, 1, 1, 0, 0, 0, 0, time.UTC), time.Date(2040, 1, 1, 0, 0, 0, 0, time.UTC)
+		caT := &x509.Certificate{SerialNumber: big.NewInt(1), Subject: pkix.Name{CommonName: "verif final CA"}, NotBefore: nb, NotAfter: na, IsCA: true,
+			BasicConstraintsValid: true, KeyUsage: x509.KeyUsageCertSign, SubjectKeyId: []byte{1, 1, 1, 1}}
+		caDER, err := x509.CreateCertificate(rand.Reader, caT, caT, &caKey.PublicKey, caKey)
+		if err != nil {
+			panic(err)
+		}
+		ca, _ := x509.ParseCertificate(caDER)
+		preT := &x509.Certificate{SerialNumber: big.NewInt(2), Subject: pkix.Name{CommonName: "verif precertificate signing certificate"}, NotBefore: nb, NotAfter: na, IsCA: true,
+			BasicConstraintsValid: true, KeyUsage: x509.KeyUsageCertSign | x509.KeyUsageDigitalSignature, SubjectKeyId: []byte{2, 2, 2, 2},
+			UnknownExtKeyUsage: []stdasn1.ObjectIdentifier{oidCTEKU}}
+		preDER, err := x509.CreateCertificate(rand.Reader, preT, ca, &preKey.PublicKey, caKey)
+		if err != nil {
+			panic(err)
+		}
+		pre, _ := x509.ParseCertificate(preDER)
+		leafT := &x509.Certificate{SerialNumber: big.NewInt(3), Subject: pkix.Name{CommonName: "precert.example"}, NotBefore: nb, NotAfter: na,
+			KeyUsage: x509.KeyUsageDigitalSignature, DNSNames: []string{"precert.example"}, SubjectKeyId: []byte{3, 3, 3, 3},
+			ExtraExtensions: []pkix.Extension{{Id: OIDPoison, Critical: true, Value: []byte{5, 0}}}}
+		leafDER, err := x509.CreateCertificate(rand.Reader, leafT, pre, &leafKey.PublicKey, preKey)
+		if err != nil {
+			panic(err)
+		}
+		preChainDER = [][]byte{leafDER, preDER, caDER}
+	})
+	return preChainDER
 }
 
 // NonMinimalSerial re-encodes a certificate with its serial number INTEGER zero-padded by one octet (`02 02 00 01` for 1):
